@@ -167,7 +167,8 @@ NEEDS = {
              "with refine or recluster rounds, and the pickle to be compared with the API's tree",
 }
 EXTRA = {"C17-a": ["C10"], "C12-a": ["C07"], "C02-a": ["C12"], "C14-b": ["C05"], "C03-b": ["C07"], "C07-b": ["C03"],
-         "C05-c": ["C09"], "C02-c": ["C08"], "C09-d": ["C18"]}
+         "C05-c": ["C09"], "C02-c": ["C08"], "C09-d": ["C18"], "C03-d": ["C02", "C05"],
+         "C04-d": ["C17"], "C11-d": ["C19"]}
 
 
 def sh(cmd, **kw):
